@@ -84,7 +84,8 @@ class ClassicalGate(Box):
     def __repr__(self):
         if self.is_dagger:
             return repr(self.dagger()) + ".dagger()"
-        data = array2string(self.array.flatten())
+        data = None if self.array is None\
+            else array2string(self.array.flatten())
         return "ClassicalGate({}, {}, {}, data={})"\
             .format(repr(self.name), self.dom, self.cod, data)
 
